@@ -2,7 +2,7 @@ SPECIFICATION HSpec
 CONSTANTS
   ClearCountsRows = TRUE
   PlainNewline = TRUE
-  QuietClears = FALSE
+  QuietClears = TRUE
   Flags <- FlagsQ
   Verbs <- VerbsQ
   QuietOps = TRUE
